@@ -141,3 +141,29 @@ Section Registry.
              end
          end.
 End Registry.
+
+(* --- several operations on one registry object ---------------------------------------------------
+   registryContract / bidderRegistryContract hold the parsed ABI, the contract address, the
+   client and the logger; no method assigns to a field.  A sequence of operations on one object
+   is therefore the sequence of the single operations, each with the answers the client gives
+   at that moment. *)
+Inductive request :=
+| QCheck (addr : bytes) (a_min a_stake : callres)
+| QGetMin (a : callres)
+| QGetStake (addr : bytes) (a : callres)
+| QRegister (amount : option Z) (s : sendres) (w : receiptres).
+
+Inductive answer := ACheck (b : bool) | ANum (v : option N) | AReg (o : outcome unit).
+
+Definition run_request (kec : bytes -> bytes) (cfg : registry) (reg : bytes) (q : request)
+  : list effect * answer :=
+  match q with
+  | QCheck addr a1 a2 => let (t, b) := check kec cfg reg addr a1 a2 in (t, ACheck b)
+  | QGetMin a => let (t, v) := get_min kec cfg reg a in (t, ANum v)
+  | QGetStake addr a => let (t, v) := get_stake kec cfg reg addr a in (t, ANum v)
+  | QRegister amt s w => let (t, o) := register kec cfg reg amt s w in (t, AReg o)
+  end.
+
+Definition session (kec : bytes -> bytes) (cfg : registry) (reg : bytes) (qs : list request)
+  : list (list effect * answer) :=
+  map (run_request kec cfg reg) qs.
